@@ -22,7 +22,7 @@ def check_graph(r, k, G, depths=(0, 1, 2, 3, 4), leaf_from=None):
     n = 4 ** k
     arcs = [(u, j) for u in range(n) for j in range(4) if G[u][j] >= 0]
     case = {'k': k, 'arcs': arcs}
-    acc = U.A(G)
+    acc = U.A_reuse(G)
     before = acc.tobytes()
     r.states += 1
     r.evals += 1
@@ -122,7 +122,7 @@ def check_graph(r, k, G, depths=(0, 1, 2, 3, 4), leaf_from=None):
         r.nontriv += 1
 
 
-def check_illegal(r, k, u, w, pattern):
+def check_illegal(r, k, u, w, pattern, background=False):
     """Matrix with the illegal arc u -> w on top of the legal row pattern: must raise ValueError."""
     import dsw
     n = 4 ** k
@@ -132,6 +132,12 @@ def check_illegal(r, k, u, w, pattern):
         if pattern >> j & 1:
             M[u, s[j]] = 1
     M[u, w] = 1
+    if background:
+        # the complete graph around it: with one legal arc of the row moved (exactly 4n ones) or kept (4n+1)
+        for v in range(n):
+            if v != u:
+                for x in O.succ(v, k):
+                    M[v, x] = 1
     st, res, _ = brun(dsw.adjacency_matrix_to_accessor, M)
     r.trans += 1
     r.evals += 1
@@ -139,7 +145,7 @@ def check_illegal(r, k, u, w, pattern):
     r.nontriv += 1
     if not (st == 'exc' and type(res) is ValueError):
         r.v('C14|adjacency_matrix_to_accessor|illegal-arc-' + ('accepted' if st == 'ok' else 'raised-' + type(res).__name__),
-            'illegal', {'k': k, 'u': u, 'w': w, 'pattern': pattern}, 'ValueError', repr(res)[:200])
+            'illegal', {'k': k, 'u': u, 'w': w, 'pattern': pattern, 'background': background}, 'ValueError', repr(res)[:200])
 
 
 def from_arcs(k, arcs):
@@ -154,7 +160,7 @@ def check_case(r, kind, case):
         G = from_arcs(case['k'], case['arcs'])
         check_graph(r, case['k'], G)
     else:
-        check_illegal(r, case['k'], case['u'], case['w'], case['pattern'])
+        check_illegal(r, case['k'], case['u'], case['w'], case['pattern'], bool(case.get('background')))
 
 
 def _w_g1(chunk):
@@ -199,6 +205,9 @@ def _w_ill(chunk):
     for k, u, w, pats in chunk:
         for p in pats:
             check_illegal(r, k, u, w, p)
+        if k == 2 or (u + w) % 7 == 0:
+            for p in (7, 11, 13, 14, 15):       # three legal arcs + the illegal one = 4 ones in the row, or all four + it
+                check_illegal(r, k, u, w, p, background=True)
     r.sample({'k': chunk[-1][0], 'illegal_arc': [chunk[-1][1], chunk[-1][2]], 'row_patterns': list(chunk[-1][3])}, 1)
     return r
 
